@@ -714,6 +714,8 @@ def R5_index_search(ctx):
     ctx.rule("C14.R5", "find_nearest_index(arr, t): t == arr.last => len-2 (empty => Err); low=0, high=len-1; while low<high { mid in [low,high): low+(high-low)/2; if arr[mid] >= t {high=mid} else {low=mid+1} }; result low-1 if low>0 && arr[low] >= t else low — the one-iteration transfer function, entry values and exits equal this reference (proved on paper: for sorted arr, len>=2, arr[0] <= t <= arr.last the result l satisfies arr[l] <= t <= arr[l+1], l+1 < len)", floor=9)
     b = F.need(FNI)
     loops = b.natural_loops()
+    if not loops and _bisection_recursive_form(ctx, F, b):
+        return
     if not ctx.check(len(loops) == 1, "single-loop", "expected exactly one loop, found %d" % len(loops), b.where()):
         return
     h = loops[0][0]
@@ -802,6 +804,103 @@ def R5_index_search(ctx):
     ctx.check(okn, "pre:empty=>Err", "an empty axis is not an Err", b.where())
     other = [r for r in rows if r.kind == "cycle"]
     ctx.check(not other, "no-other-cycles", "unexpected second cycle", b.where())
+
+
+def _bisection_recursive_form(ctx, F, b):
+    """the same bisection as a tail recursion: lb(arr, t, low, high) = low if low >= high else (lb(arr, t, low, mid) if
+    arr[mid] >= t else lb(arr, t, mid + 1, high)), entered with (0, len - 1); its result takes the place of `low` at the exits.
+    One call of lb is one turn of the loop.  False when no such helper is used."""
+    known = known_functions()
+    with no_inline():
+        helpers = [c for c in b.calls() if c.callee in F.bodies and known and c.callee not in known and "{closure" not in c.callee]
+    helpers = [c for c in helpers if any(x.callee == c.callee for x in F.bodies[c.callee].calls())]
+    if len(helpers) != 1:
+        return False
+    hc = helpers[0]
+    hb = F.bodies[hc.callee]
+    if hb.argc != 4 or hb.natural_loops():
+        return False
+    ARR, T, LO, HI = ("arg", 1), ("arg", 2), ("arg", 3), ("arg", 4)
+    A = Arith(F, symbols={LO: "low", HI: "high"})
+    S = lambda nm: Ratio(Poly.sym(nm))
+    mid_ref = (S("low") + S("high")) / Ratio(Poly.const(2))
+    def is_mid(t):
+        t = nosite(deep_strip(t))
+        if not contains(t, lambda q: q[0] == "bin" and q[1] == "Div" and q[3] == ("const", "usize", 2)):
+            return False
+        return A.ev(t).equals(mid_ref) and shape_mid(t, LO, HI)
+    with no_inline():
+        rows = [r for r in table(hb) if r.end == "return"]
+    seen = set()
+    stop = False
+    for r in rows:
+        rv = nosite(deep_strip(r.ret))
+        facts = {(f[0], unmut(f[1]), unmut(f[2])) for f in r.facts}
+        if ("Le", HI, LO) in facts:
+            stop = True
+            ctx.check(rv == LO, "loop-test:low<high", "with low >= high the bisection does not answer low: %s" % short(rv)[:80], hb.where(), detail="low >= high => low")
+            continue
+        if ("Lt", LO, HI) not in facts:
+            ctx.bad("exit:without-loop-test", "a path of the bisection helper decides without the test low < high", hb.where())
+            continue
+        ge = [f for f in facts if f[0] == "Le" and f[1] == T and f[2][0] == "index" and f[2][1] == ARR and is_mid(f[2][2])]
+        lt = [f for f in facts if f[0] == "Lt" and f[2] == T and f[1][0] == "index" and f[1][1] == ARR and is_mid(f[1][2])]
+        rec = rv[0] == "call" and rv[1] == hb.path and len(rv[2]) == 4 and rv[2][0] == ARR and rv[2][1] == T
+        if ge and not lt:
+            seen.add("ge")
+            ctx.check(rec and rv[2][2] == LO and is_mid(rv[2][3]), "step:arr[mid]>=t=>high=mid", "when arr[mid] >= target the step is not (low, high) := (low, mid): %s" % short(rv)[:120], hb.where(), detail="high = mid")
+        elif lt and not ge:
+            seen.add("lt")
+            nl = rv[2][2] if rec else None
+            okl = rec and rv[2][3] == HI and nl[0] == "bin" and nl[1] == "Add" and is_mid(nl[2]) and nl[3] == ("const", "usize", 1)
+            ctx.check(okl, "step:arr[mid]<t=>low=mid+1", "when arr[mid] < target the step is not (low, high) := (mid+1, high): %s" % short(rv)[:120], hb.where(), detail="low = mid + 1")
+        else:
+            ctx.bad("step:unrecognised", "a path of the bisection helper does not compare arr[mid] with the target", hb.where())
+    ctx.check(stop, "loop-test:low<high", "the bisection helper never stops on low >= high", hb.where())
+    ctx.check(seen == {"ge", "lt"}, "step:both-branches", "the bisection helper does not have both the >= and the < step", hb.where())
+    # entry and exits in find_nearest_index
+    with no_inline():
+        tm = Terms(b)
+        ea = [nosite(deep_strip(tm.operand(x, hc.bb))) for x in hc.args]
+        R_ = nosite(deep_strip(tm.call_term(hc.term, hc.bb)))
+        rows_b = [r for r in table(b, max_paths=2000) if r.end == "return"]
+    ln = ("call", "std::slice::<impl [T]>::len", (("arg", 1),))
+    ctx.check(ea[0] == ("arg", 1) and ea[1] == ("arg", 2) and ea[2] == ("const", "usize", 0) and ea[3] == ("bin", "Sub", ln, ("const", "usize", 1)), "entry:low=0,high=len-1", "the search does not start with (0, len-1): (%s, %s)" % (short(ea[2]), short(ea[3])), hc.where(), detail="(0, len-1)")
+    exits = {"adjust": 0, "keep>0": 0, "keep=0": 0}
+    okl = okn = False
+    for r in rows_b:
+        rv = nosite(deep_strip(r.ret))
+        pay = agg_payload(rv) if result_variant(rv) == "Ok" else None
+        facts = {(f[0], unmut(f[1]), unmut(f[2])) for f in r.facts}
+        uses = contains(rv, lambda q: q == R_) or any(contains(f[1], lambda q: q == R_) or contains(f[2], lambda q: q == R_) for f in facts)
+        if is_err_value(rv) or result_variant(rv) == "Err":
+            okn = True
+            continue
+        if not uses:
+            last = ("call", "std::slice::<impl [T]>::last", (("arg", 1),))
+            if (("Eq", ("arg", 2), last) in facts or ("Eq", last, ("arg", 2)) in facts) and pay == ("bin", "Sub", ln, ("const", "usize", 2)):
+                okl = True
+            continue
+        pos = ("Lt", ("const", "usize", 0), R_) in facts
+        zero = ("Eq", R_, ("const", "usize", 0)) in facts or ("Eq", ("const", "usize", 0), R_) in facts or ("Le", R_, ("const", "usize", 0)) in facts
+        ge = ("Le", ("arg", 2), ("index", ("arg", 1), R_)) in facts
+        lt = ("Lt", ("index", ("arg", 1), R_), ("arg", 2)) in facts
+        if pos and ge:
+            exits["adjust"] += 1
+            ctx.check(pay == ("bin", "Sub", R_, ("const", "usize", 1)), "exit:low>0&&arr[low]>=t=>low-1", "returns %s" % short(rv)[:80], b.where(), detail="low - 1")
+        elif pos and lt:
+            exits["keep>0"] += 1
+            ctx.check(pay == R_, "exit:arr[low]<t=>low", "returns %s" % short(rv)[:80], b.where(), detail="low")
+        elif zero:
+            exits["keep=0"] += 1
+            ctx.check(pay == R_ or pay == ("const", "usize", 0), "exit:low=0=>low", "returns %s" % short(rv)[:80], b.where(), detail="low (= 0)")
+        else:
+            ctx.bad("exit:unrecognised", "an exit path decides on other facts: %s" % [short(("bin",) + f)[:80] for f in r.facts], b.where())
+    ctx.check(all(v >= 1 for v in exits.values()), "exit:all-three", "not all three exits (low-1 / low / 0) are present: %s" % exits, b.where())
+    ctx.check(okl, "pre:t==last=>len-2", "the upper boundary does not map to the last cell (len-2)", b.where(), detail="t == arr.last => len-2")
+    ctx.check(okn, "pre:empty=>Err", "an empty axis is not an Err", b.where())
+    ctx.check(True, "no-other-cycles", "", b.where())
+    return True
 
 
 def shape_mid(t, LO, HI):
